@@ -207,8 +207,9 @@ for _d in (0, 1):
         features=("alloc",), domain="fully symbolic record x velocity report with arbitrary derived velocity", functions=TRK_FN, timeout=900)
     add("trk_other_" + _n, "rsadsb_common", T + "obl_action_other_me", args=_b, props=["C12", "C01"], stubs=["fmt", ENTRY], unwind=8,
         features=("alloc",), domain="fully symbolic record x other payload types", functions=TRK_FN, timeout=900)
-add("trk_non_es", "rsadsb_common", T + "obl_action_non_es", props=["C12", "C01"], stubs=["fmt", ENTRY], unwind=6, features=("alloc",),
-    domain="DF5 / DF11 / DF19 / DF24 frames with symbolic contents", functions=["Airplanes::action"], timeout=900)
+for _w, _wn in ((0, "df11"), (1, "df19"), (2, "df24"), (3, "df05")):
+    add("trk_non_es_" + _wn, "rsadsb_common", T + "obl_action_non_es", args="%d" % _w, props=["C12", "C01"], stubs=["fmt", ENTRY], unwind=6, features=("alloc",),
+        domain="%s frames with symbolic contents" % _wn.upper(), functions=["Airplanes::action"], timeout=600)
 add("trk_details", "rsadsb_common", T + "obl_details", props=["C14", "C01"], stubs=["fmt", GET], unwind=6, features=("alloc",),
     domain="fully symbolic record", functions=["Airplanes::aircraft_details", "AirplaneCoor::altitude"], timeout=900)
 for _mask, _pm in ((0, 0), (7, 0), (7, 7), (7, 5), (7, 2), (5, 4), (2, 2), (3, 1)):
